@@ -122,6 +122,7 @@ impl Default for CachedQuality {
     }
 }
 
+#[cfg_attr(feature = "verif-hooks", derive(Clone, Debug))]
 pub struct SrtlaConnection {
     pub conn_id: u64,
     #[allow(dead_code)]
